@@ -367,9 +367,17 @@ func check(run *kit.Run, c caseT) {
 			gopts = append(gopts, globalOpt(o))
 		}
 		seen := map[string]string{} // handler kind -> ClientIP result
+		var cloneProblems []string
 		record := func(kind string) func(c fox.Context) {
 			return func(c fox.Context) {
 				ip, err := c.ClientIP()
+				// a copy of the context taken by the handler (for a background job) stands for the same route and
+				// configuration, however the request reached the handler
+				cl := c.Clone()
+				ip2, err2 := cl.ClientIP()
+				if cl.Route() != c.Route() || cl.Pattern() != c.Pattern() || (err == nil) != (err2 == nil) || (err == nil && ip.String() != ip2.String()) || (err != nil && err.Error() != err2.Error()) {
+					cloneProblems = append(cloneProblems, fmt.Sprintf("Clone taken inside the %s handler (request %s) stands for pattern %q and ClientIP (%v, %v); the context itself shows %q and (%v, %v)", kind, c.Path(), cl.Pattern(), ip2, err2, c.Pattern(), ip, err))
+				}
 				switch {
 				case errors.Is(err, fox.ErrNoClientIPResolver):
 					seen[kind] = "none"
@@ -625,7 +633,7 @@ func check(run *kit.Run, c caseT) {
 				}
 			}
 		}
-		for _, p := range problems {
+		for _, p := range append(problems, cloneProblems...) {
 			run.Violate("options|"+firstWord(p)+"|"+id, p+"\n"+id, c)
 		}
 		if run.WantSample() && interacts(c) {
